@@ -289,9 +289,14 @@ func (db *DB) loadIndexFromHintFile() (uint32, error) {
 		return 0, err
 	}
 
-	// 实际读取到的最大数据文件 id
+	// 加载完成后关闭 hint 文件, 避免泄漏文件描述符及 mmap 预分配的文件空间
+	defer func() {
+		_ = hintFile.Close()
+	}()
+
+	// hint 文件实际覆盖到的数据文件 id 上界(不含)
 	// 避免 hint 文件被删除导致无法加载的情况
-	var maxFileId datafile.FileID
+	var coveredFileId datafile.FileID
 	reader := hintFile.NewReader()
 	for {
 		key, pos, err := reader.NextHintRecord()
@@ -304,8 +309,8 @@ func (db *DB) loadIndexFromHintFile() (uint32, error) {
 		db.index.Put(key, pos)
 		db.totalSize += int64(pos.Size)
 
-		maxFileId = max(maxFileId, pos.Fid)
+		coveredFileId = max(coveredFileId, pos.Fid+1)
 	}
 
-	return maxFileId, nil
+	return coveredFileId, nil
 }
